@@ -54,6 +54,10 @@ JudgeClock(o) ==
 \* clock (1) does not step back
 JudgeClockSeq(o) == /\ o.errno = 0
                     /\ (o.id = 1 => \A i \in 1..(Len(o.ts) - 1) : LeT(o.ts[i], o.ts[i + 1]))
+\* clock_res_get: the host's resolution of the same clock as 64-bit nanoseconds, nothing else written
+JudgeClockRes(o) ==
+    IF o.id \notin {0, 1, 2, 3} THEN o.errno = 28 /\ ~o.wrote
+    ELSE o.errno = 0 /\ o.wrote /\ o.t = o.before /\ o.outside = 0
 JudgeRandom(o) == /\ o.errno = 0 /\ o.outside = 0
                   /\ (o.len >= 16 => (o.run1 < 16 \/ o.run2 < 16))
                   /\ (o.len > 0 /\ o.len < 16 => TRUE)
@@ -77,6 +81,7 @@ Judge == (k >= 1) =>
         ok == CASE o.kind = "layout" -> LayoutOK(o.vec, o.buf)
                 [] o.kind = "clock" -> JudgeClock(o)
                 [] o.kind = "clockseq" -> JudgeClockSeq(o)
+                [] o.kind = "clockres" -> JudgeClockRes(o)
                 [] o.kind = "random" -> JudgeRandom(o)
                 [] o.kind = "exit" -> JudgeExit(o)
                 [] o.kind = "spawn" -> JudgeSpawn(o)
